@@ -19,7 +19,7 @@ add('C02', 'l2', 'Generated packages compiled with load_locales!(); one natively
     'Trusted: reference semantics, the decoder of leptos to_html() output (empty text nodes render as one space). Reactive re-rendering is C16.',
     technique='differential property-based testing across accessor flavours on generated crates, with a reference model')
 add('C03', 'l1', 'Exhaustive enumeration of the 4-locale domain (125 inherits maps x 27 presence patterns x 6 value kinds) at parser level plus random projects with 2-6 locales; text per locale and the DefaultedLocales grouping used by the code generator are compared with the model walk along `inherits`.',
-    L1_NOTE + '`exhaustive` in the evidence refers to the enumerated 4-locale sub-domain only.',
+    L1_NOTE + '`exhaustive` in the evidence refers to the enumerated 4-locale sub-domain at parser level; the generated-crate stage compiles one package per inherits map (8 representative maps quick, all 125 thorough) holding every presence pattern x value kind, plus random packages.',
     technique='exhaustive enumeration of a finite sub-domain + property-based testing against a reference model')
 add('C04', 'l1', 'Stage 1 (parser): generated range declarations over all numeric types are parsed and matched by an independent matcher, and `$t(range,{count:n})` must pick the same branch at parse time. Stage 2 (generated crates): the same kind of declarations compiled with load_locales!() and observed through td_string!/td_display!/td! in a run-time loop over every bound +-2, extremes (all 256 values for i8/u8; +-1 ulp for floats). Oracle: first containing branch under Rust range semantics.',
     L1_NOTE + 'every generated integer range has a fallback; empty ranges (5..5, ..MIN) are not generated.',
